@@ -90,6 +90,8 @@ pub struct World {
     pub budget_exhausted: bool,
     pub pkts: Vec<WirePkt>,
     parsed_upto: usize,
+    /// indices of operations whose future is still running
+    active_ops: Vec<usize>,
 }
 
 impl World {
@@ -114,6 +116,7 @@ impl World {
             budget_exhausted: false,
             pkts: vec![],
             parsed_upto: 0,
+            active_ops: vec![],
         }
     }
 
@@ -324,6 +327,7 @@ impl World {
             first_polled_step: None,
             done_step: None,
         });
+        self.active_ops.push(self.ops.len() - 1);
         Some(self.ops.len() - 1)
     }
 
@@ -456,10 +460,17 @@ impl World {
                 self.poll_ctx();
                 progressed = true;
             }
-            for i in 0..self.ops.len() {
+            let mut k = 0;
+            while k < self.active_ops.len() {
+                let i = self.active_ops[k];
                 if self.ops[i].task.woken() {
                     self.poll_op(i);
                     progressed = true;
+                }
+                if self.ops[i].task.is_running() {
+                    k += 1;
+                } else {
+                    self.active_ops.remove(k);
                 }
             }
             if streams {
@@ -502,7 +513,7 @@ impl World {
 
     pub fn any_woken(&self) -> bool {
         self.ctx_woken()
-            || self.ops.iter().any(|o| o.task.woken())
+            || self.active_ops.iter().any(|i| self.ops[*i].task.woken())
             || (0..self.streams.len()).any(|s| self.stream_woken(s))
     }
 
